@@ -22,11 +22,31 @@ KNOWN = {1: "C07-fragset-numbits", 2: "C07-inforeply-overread", 3: "C07-data-res
 # ---------------------------------------------------------------------------------------
 # PLACE FOR THE OTHER DECODERS OF C07 (discovery parameter lists: participant, publication,
 # subscription, topic, type lookup; XCDR user payloads).  They are handled by other work
-# items; each entry would name (harness bin, Coq corr module, prefix) of a further
-# correspondence to run from `extra(ctx, binary)` below.  Empty: this check, its theorems
-# and its MANIFEST text claim the RTPS message decoder only.
+# items; each entry is the name of a props module (props/<name>.py with the usual PREFIX / CORR /
+# CASE_TYPE / HARNESS / gen / case_term ...) whose correspondence `extra(ctx, binary)` below runs
+# after the RTPS one.  Empty: this check, its theorems and its MANIFEST text claim the RTPS
+# message decoder only.
 EXTRA_DECODERS = []
 # ---------------------------------------------------------------------------------------
+
+
+def extra(ctx, binary):
+    """run the correspondences of the other C07 decoders (none registered yet)"""
+    import importlib
+    for name in EXTRA_DECODERS:
+        sub = importlib.import_module("props." + name)
+        b, out = core.cargo_build(ctx, bin=sub.HARNESS)
+        if b is None:
+            ctx.broken.append("harness %s does not build: %s" % (sub.HARNESS, out[-300:]))
+            continue
+        cases = (list(sub.corpus()) if hasattr(sub, "corpus") else []) + sub.gen(ctx.rng, ctx.tier)
+        res, lines, outs = core.correspond(ctx, sub, b, cases, label=name)
+        ctx.cov["extra_" + name] = {"evaluations": len(cases), "model_disagreements": len(res["model_bad"])}
+        for i in res["oracle_bad"][:3]:
+            ctx.violations.append(("oracle", "decoder %s: property oracle rejects implementation behaviour on case: %s -> %s"
+                                   % (name, lines[i], outs[i]), {"case": lines[i], "harness": sub.HARNESS, "impl_output": outs[i]}))
+        if res["model_bad"] and not res["oracle_bad"]:
+            ctx.broken.append("correspondence %s: implementation differs from model on %d case(s)" % (name, len(res["model_bad"])))
 
 RULE = ("a case is one byte string handed to the real RtpsMessageRead::try_from (every decoded submessage is then "
         "read through its accessors) under catch_unwind with a counting global allocator; streams: random bytes, "
